@@ -64,7 +64,7 @@ func propC19(r *Run) {
 			case "failing":
 				beh[p] = simexec.Behaviour{ExitAfter: time.Second, ExitCode: 3}
 			case "hanging":
-				beh[p] = simexec.Behaviour{Hang: true}
+				beh[p] = simexec.Behaviour{Hang: true, IgnoreTerm: r.Choose("ignores-sigterm", 2) == 1}
 			case "nostart":
 				beh[p] = simexec.Behaviour{StartErr: fmt.Errorf("permission denied")}
 			}
